@@ -823,6 +823,32 @@ int main(int argc, char **argv) {
   uint64_t caseno = 0, mine_count = 0;
   bool cut = false;
   int nf = (int)FS.size();
+  // (runs first so that a deadline cuts the large family below, not this one)
+  // the multi-call family: main calls the two-armed f four times with constants from {-1,0,1} (every 4-tuple), so that a bound on the
+  // calling contexts is exceeded by pairwise disjoint contexts; f's statements range over the call-free part of the alphabet
+  // (thorough: plus the recursive call y:=f(z))
+  if (PROP == "C09" || PROP == "C02" || th) {
+    std::vector<int> fs_plain;
+    for (int i = 0; i < nf; i++)
+      if (i < 9 && (FS[i].kind != S_CALL || (th && FS[i].name == "f" && i < 6))) fs_plain.push_back(i); // the base alphabet (thorough: plus y:=f(z))
+    for (int s1 : fs_plain)
+      for (int s2 : fs_plain)
+        for (int s3 : fs_plain)
+          for (int multi = 1; multi <= 81 && !cut; multi++)
+            for (int as = (PROP == "C02" ? 1 : 0); as < (PROP == "C10" || PROP == "C05" ? 1 : 2); as++) {
+              if (!(s3 == 0 || s3 == 2 || (th && FS[s3].kind == S_CALL))) continue; // third statement: skip, y:=x+1 (thorough: or the recursive call)
+              if (!vp::mine(caseno++)) continue;
+              if ((++mine_count & 0x3) == 0 && vp::past_deadline()) {
+                vp::incomplete("cut in the multi-call family at s1=" + std::to_string(s1));
+                cut = true;
+                break;
+              }
+              ProgId id = {0, 0, 0, 0, as, 0, 1, s1, s2, s3, -1, -1};
+              id.multi = multi;
+              run_program(id, "");
+            }
+  }
+
   for (int fshape = 0; fshape < 2 && !cut; fshape++)
     for (int s1 = 0; s1 < nf && !cut; s1++)
       for (int s2 = 0; s2 < nf && !cut; s2++)
@@ -851,31 +877,6 @@ int main(int argc, char **argv) {
                         ProgId id = {m1, c1, m2, c2, as, loop, fshape, s1, s2, s3, g, h};
                         run_program(id, "");
                       }
-
-  // the multi-call family: main calls the two-armed f four times with constants from {-1,0,1} (every 4-tuple), so that a bound on the
-  // calling contexts is exceeded by pairwise disjoint contexts; f's statements range over the call-free part of the alphabet
-  // (thorough: plus the recursive call and y:=y+1)
-  if (PROP == "C09" || PROP == "C02" || th) {
-    std::vector<int> fs_plain;
-    for (int i = 0; i < nf; i++)
-      if (FS[i].kind != S_CALL || (th && FS[i].name == "f")) fs_plain.push_back(i);
-    for (int s1 : fs_plain)
-      for (int s2 : fs_plain)
-        for (int s3 : fs_plain)
-          for (int multi = 1; multi <= 81 && !cut; multi++)
-            for (int as = (PROP == "C02" ? 1 : 0); as < (PROP == "C10" || PROP == "C05" ? 1 : (th ? (int)AS.size() : 2)); as++) {
-              if (!th && !(s3 == 0 || s3 == 2)) continue;
-              if (!vp::mine(caseno++)) continue;
-              if ((++mine_count & 0x3) == 0 && vp::past_deadline()) {
-                vp::incomplete("cut in the multi-call family at s1=" + std::to_string(s1));
-                cut = true;
-                break;
-              }
-              ProgId id = {0, 0, 0, 0, as, 0, 1, s1, s2, s3, -1, -1};
-              id.multi = multi;
-              run_program(id, "");
-            }
-  }
 
   vp::stat("programs", n_programs);
   vp::stat("recursive_programs", n_rec);
